@@ -4,7 +4,7 @@
    option setting, every input. *)
 From Coq Require Import ZArith NArith List Bool.
 From Lithium Require Import PyBase TcRecord Util Testcase Spec Driver TraceSpec Minimize StratSpec
-  MinimizeBound.
+  MinimizeBound Pairs PairsBound.
 Import ListNotations.
 Open Scope Z_scope.
 
@@ -26,5 +26,18 @@ Theorem C09_minimize :
     n_tests (chron (result_world r)) <= c09_bound (tc_len tc0).
 Proof. exact minimize_bounded_no_post. Qed.
 
+(* minimize-around / minimize-balanced (experimental move off): no internal error (the assert of
+   minimize-balanced holds, no index error, the non-proposing transitions are bounded) and the
+   same bound on the number of tests *)
+Theorem C09_pairs :
+  forall kind cfg clk verdict tc0 file0 fuel,
+    wf tc0 -> valid_cfg cfg ->
+    (Z.to_nat (2 * c09_bound (tc_len tc0)) <= fuel)%nat ->
+    let r := run (pairs kind cfg clk) verdict fuel tc0 file0 in
+    (forall w, r <> NoFuel w) /\ (forall e w, r <> Aborted (Some e) w) /\
+    n_tests (chron (result_world r)) <= c09_bound (tc_len tc0).
+Proof. exact pairs_bounded. Qed.
+
 Print Assumptions C09_minimize_like.
+Print Assumptions C09_pairs.
 Print Assumptions C09_minimize.
